@@ -26,6 +26,7 @@ class DocGen:
         self.dup_inline = dup_inline
         self.use_args = use_args
         self.recursive = recursive
+        self.frags_by_role = {}
         self.frags = {}      # name -> {"name","on","sel"}
         self.frag_order = []
         self.fragn = 0
@@ -41,8 +42,25 @@ class DocGen:
         used = set() if used is None else used
         items = []
         if k in ("interface", "union"):
-            items.append(["typename"])
+            if rng.random() < 0.12:
+                # `__typename` reaches this selection only through a spread of a fragment on the same type (shared by every
+                # such selection of the document, and itself possibly a chain of two fragments)
+                items.append(["spread", self.typename_fragment(tname)])
+                self.features.add("typename-via-same-type-spread")
+            else:
+                items.append(["typename"])
             used.add("__typename")
+            if rng.random() < 0.07 and depth < self.max_depth and s.possible(tname):
+                # exactly `{ __typename ...FragmentOnOneMember }`
+                m = rng.choice(s.possible(tname))
+                fn = self.fragment(m, depth + 1, forbid=set(used))
+                if fn:
+                    items.append(["spread", fn])
+                    if rng.random() < 0.5:
+                        items.reverse()
+                    self.features.add("typename-plus-single-member-spread")
+                    self.features.add(k)
+                    return items
             if k == "interface":
                 fs = s.fields(tname)
                 for f in rng.sample(fs, rng.randint(0, len(fs))):
@@ -119,6 +137,24 @@ class DocGen:
         if len(items) == 1 and items[0][0] == "spread":
             self.features.add("spread-only-selection")
         return items
+
+    def typename_fragment(self, tname):
+        key = "__tn__" + tname
+        if key in self.frags_by_role:
+            return self.frags_by_role[key]
+        self.fragn += 1
+        outer = "TnOuter%d" % self.fragn
+        if self.rng.random() < 0.5:
+            inner = "TnInner%d" % self.fragn
+            # definition order: the outer fragment comes first, the one that really selects __typename later
+            self.frags[outer] = {"name": outer, "on": tname, "sel": [["spread", inner]]}
+            self.frags[inner] = {"name": inner, "on": tname, "sel": [["typename"]]}
+            self.frag_order += [outer, inner]
+        else:
+            self.frags[outer] = {"name": outer, "on": tname, "sel": [["typename"]]}
+            self.frag_order.append(outer)
+        self.frags_by_role[key] = outer
+        return outer
 
     def args_for(self, f):
         if not self.use_args or not f.get("args"):
@@ -299,6 +335,7 @@ class DocGen:
         avail = [k for k in ("query", "mutation", "subscription") if s.roots.get(k)]
         for attempt in range(80):
             self.frags = {}
+            self.frags_by_role = {}
             self.frag_order = []
             self.features = set()
             n = n_ops if n_ops is not None else rng.choice([1, 1, 1, 2, 3])
